@@ -36,6 +36,12 @@ RES_BY_NAME = {"kopfexamples": KEX, "clusterthings": CTHING, "widgets": WIDGET,
                "namespaces": fakeapi.NAMESPACES, "customresourcedefinitions": fakeapi.CRDS}
 
 
+# in-stream ERROR events other than 410 "Expired": what API servers, proxies and etcd hiccups have been seen to send
+ERROR_REASONS = {400: "BadRequest", 401: "Unauthorized", 403: "Forbidden", 404: "NotFound", 409: "Conflict",
+                 429: "TooManyRequests", 500: "InternalError", 502: "BadGateway", 503: "ServiceUnavailable",
+                 504: "Timeout", 411: "LengthRequired", 0: "Unknown"}
+
+
 class _AsyncioProxy:
     """`watching.asyncio` replacement: everything is the real module, `sleep` logs its end."""
 
@@ -310,6 +316,11 @@ def run_stream(sc: dict, wall_limit: float = 60.0) -> dict:
                 if op[1] == "error_nocode":     # an ERROR event whose Status has no `code`
                     cluster.break_watches(KEX, "error", payload={"kind": "Status", "apiVersion": "v1", "metadata": {},
                                                                  "status": "Failure", "message": "boom", "reason": "Unknown"})
+                elif op[1] == "error" and len(op) > 2:      # an unknown ERROR event with a chosen HTTP-like code
+                    code = int(op[2])
+                    cluster.break_watches(KEX, "error", payload={
+                        "kind": "Status", "apiVersion": "v1", "metadata": {}, "status": "Failure", "code": code,
+                        "reason": ERROR_REASONS.get(code, "Unknown"), "message": f"injected in-stream error {code}"})
                 else:
                     cluster.break_watches(KEX, op[1])
             elif name == "bookmark":
@@ -512,7 +523,13 @@ def run_operator(sc: dict, wall_limit: float = 60.0) -> dict:
     """sc = {"clusterwide": bool, "patterns": [..], "handlers": [plural…], "initial_resources": [plural…],
              "initial_namespaces": [..], "timeline": [[t, op, args…]], "end": T, "settings": {...}}
     ops: add_ns n | del_ns n | add_res plural | del_res plural | create plural ns name | edit plural ns name |
-         delete plural ns name | break plural how | compact plural | http410 bool | check
+         delete plural ns name | break plural how | compact plural | http410 bool | check |
+         term_ns n (the namespace becomes Terminating as in Kubernetes: deletionTimestamp + status.conditions, some of
+         them True = content/finalizers remaining) | fin_ns n (all conditions False, then the object is removed) |
+         pause | resume (an extra toggle in the operator's own `operator_paused` ToggleSet: "a UI with a pause button")
+    optional: "extra_handlers": [{"plural", "kind": daemon|timer|index|create|update|delete|resume}],
+              "verbs": {plural: [verbs…]}, "scanning_disabled": bool, "ns_forbidden": "list"|"watch" (HTTP 403),
+              "initial_terminating": [namespaces that are Terminating (blocked) before the operator starts]
     Returns checkpoints with the watches open on the server, handler calls, and the watch request log."""
 
     async def main() -> dict:
@@ -521,11 +538,55 @@ def run_operator(sc: dict, wall_limit: float = 60.0) -> dict:
         loop = asyncio.get_running_loop()
         cluster = Cluster19([fakeapi.NAMESPACES, fakeapi.CRDS])
         rebase_versions(cluster, sc.get("rv0"))
+        # per-scenario resource definitions (never the shared module-level ones when the verbs are varied)
+        RES = dict(RES_BY_NAME)
+        for p, verbs in (sc.get("verbs") or {}).items():
+            b = RES_BY_NAME[p]
+            RES[p] = fakeapi.ResourceDef(b.group, b.version, b.plural, b.kind, namespaced=b.namespaced, verbs=tuple(verbs),
+                                         shortnames=b.shortnames, categories=b.categories)
+
+        def terminate_ns(n: str, blocked: bool) -> None:
+            """What the namespace controller writes: the deletion mark and the five conditions; `blocked`: content and
+            finalizers remain (status True); otherwise all conditions are False (the object is removed next)."""
+            def fn(body: dict) -> None:
+                body["metadata"].setdefault("deletionTimestamp", "2020-01-01T00:00:00Z")
+                body.setdefault("spec", {})["finalizers"] = ["kubernetes"]
+                rem = "True" if blocked else "False"
+                body["status"] = {"phase": "Terminating", "conditions": [
+                    {"type": "NamespaceDeletionDiscoveryFailure", "status": "False", "reason": "ResourcesDiscovered", "message": "ok"},
+                    {"type": "NamespaceDeletionGroupVersionParsingFailure", "status": "False", "reason": "ParsedGroupVersions", "message": "ok"},
+                    {"type": "NamespaceDeletionContentFailure", "status": "False", "reason": "ContentDeleted", "message": "ok"},
+                    {"type": "NamespaceContentRemaining", "status": rem, "reason": "SomeResourcesRemain" if blocked else "ContentRemoved",
+                     "message": "Some resources are remaining" if blocked else "ok"},
+                    {"type": "NamespaceFinalizersRemaining", "status": rem, "reason": "SomeFinalizersRemain" if blocked else "ContentHasNoFinalizers",
+                     "message": "Some content in the namespace has finalizers remaining" if blocked else "ok"}]}
+            key = (fakeapi.NAMESPACES.key, None, n)
+            if key in cluster.objects:      # the deletion mark is immutable through the fake's write path: store the version directly
+                import copy
+                body = copy.deepcopy(cluster.objects[key])
+                fn(body)
+                cluster._store(key, body, "MODIFIED")
+
         for n in sc.get("initial_namespaces", []):
             if cluster.get(fakeapi.NAMESPACES, None, n) is None:
                 cluster.create_raw(fakeapi.NAMESPACES, None, n, {})
+        for n in sc.get("initial_terminating", []):
+            if cluster.get(fakeapi.NAMESPACES, None, n) is None:
+                cluster.create_raw(fakeapi.NAMESPACES, None, n, {})
+            terminate_ns(n, True)
         for p in sc.get("initial_resources", []):
-            cluster.add_resource(RES_BY_NAME[p], announce=True)
+            cluster.add_resource(RES[p], announce=True)
+        initial_cluster_namespaces = sorted(k[2] for k in cluster.objects if k[0] == fakeapi.NAMESPACES.key)
+        if sc.get("ns_forbidden"):
+            mode = sc["ns_forbidden"]
+
+            def forbid_ns(req: dict) -> Any:
+                if req["method"] == "GET" and req["path"].rstrip("/") == "/api/v1/namespaces":
+                    is_watch = req["query"].get("watch") == "true"
+                    if (mode == "watch" and is_watch) or (mode == "list" and not is_watch) or mode == "both":
+                        return fakeapi.Fault("status", 403)
+                return None
+            cluster.fault_rules.append(forbid_ns)
         calls: list[dict] = []
         reg = kopf.OperatorRegistry()
         for spec in sc.get("selectors", []):
@@ -555,12 +616,36 @@ def run_operator(sc: dict, wall_limit: float = 60.0) -> dict:
                         await asyncio.sleep(d)      # a handler in flight: `aiotasks.stop()` of its watcher suspends
                 return on_event
             kopf.on.event(RES_BY_NAME[p].group, RES_BY_NAME[p].version, p, id=f"ev-{p}", registry=reg)(mk(p))
+        for i, eh in enumerate(sc.get("extra_handlers", [])):
+            # other kinds of handlers serve a resource just as well (daemons, timers, indices, changing handlers)
+            b = RES_BY_NAME[eh["plural"]]
+            gvp = (b.group, b.version, b.plural)
+            hid = f"x{i}-{eh['kind']}-{b.plural}"
+            if eh["kind"] == "daemon":
+                async def dmn(stopped: Any, **_: Any) -> None:
+                    await stopped.wait()
+                kopf.daemon(*gvp, id=hid, registry=reg, cancellation_timeout=0.5)(dmn)
+            elif eh["kind"] == "timer":
+                async def tmr(**_: Any) -> None:
+                    return None
+                kopf.timer(*gvp, id=hid, registry=reg, interval=512.0)(tmr)
+            elif eh["kind"] == "index":
+                async def idx(name: Any, **_: Any) -> Any:
+                    return name
+                kopf.index(*gvp, id=hid, registry=reg)(idx)
+            elif eh["kind"] in ("create", "update", "delete", "resume"):
+                async def chg(**_: Any) -> None:
+                    return None
+                getattr(kopf.on, eh["kind"])(*gvp, id=hid, registry=reg)(chg)
+            else:
+                raise ValueError(f"unknown handler kind {eh!r}")
         st = sc.get("settings", {})
         settings = runner.default_settings(**{
             "watching.reconnect_backoff": 0.125,
             "watching.server_timeout": st.get("server_timeout", 512.0),
             "networking.error_backoffs": tuple(st.get("backoffs", (0.5, 1.0))),
             "queueing.exit_timeout": st.get("exit_timeout", 2.0),
+            "scanning.disabled": bool(sc.get("scanning_disabled", False)),
         })
         kw: dict = {"standalone": True}
         if sc.get("clusterwide", True):
@@ -576,10 +661,18 @@ def run_operator(sc: dict, wall_limit: float = 60.0) -> dict:
         ns_feed: list = []
         orig_revise = observation.revise_namespaces
 
+        def ns_mark(body: Any) -> str:
+            """the abstraction of a namespace body: live | blocked (Terminating, something remains) | finishing (Terminating, nothing remains)"""
+            conds = (body.get("status") or {}).get("conditions") or []
+            if not (body.get("metadata", {}).get("deletionTimestamp") and conds):
+                return "live"
+            return "blocked" if any(c.get("status") == "True" for c in conds) else "finishing"
+
         def obs_revise(*, insights: Any, namespaces: Any, raw_events: Any = (), raw_bodies: Any = ()) -> None:
             orig_revise(insights=insights, namespaces=namespaces, raw_events=raw_events, raw_bodies=raw_bodies)
             if raw_bodies:      # the observer's own first listing
                 ns_feed.append({"t": loop.time(), "kind": "listing0", "names": [b["metadata"]["name"] for b in raw_bodies],
+                                "marks": [ns_mark(b) for b in raw_bodies],
                                 "after": sorted(str(n) for n in insights.namespaces)})
 
         orig_process = observation.process_discovered_namespace_event
@@ -587,7 +680,7 @@ def run_operator(sc: dict, wall_limit: float = 60.0) -> dict:
         async def obs_process(*, raw_event: Any, namespaces: Any, insights: Any, **kw: Any) -> None:
             await orig_process(raw_event=raw_event, namespaces=namespaces, insights=insights, **kw)
             ns_feed.append({"t": loop.time(), "kind": "event", "type": raw_event["type"],
-                            "name": raw_event["object"]["metadata"]["name"],
+                            "name": raw_event["object"]["metadata"]["name"], "mark": ns_mark(raw_event["object"]),
                             "after": sorted(str(n) for n in insights.namespaces)})
         observation.process_discovered_namespace_event = obs_process  # type: ignore[assignment]
         from kopf._core.reactor import orchestration
@@ -642,6 +735,28 @@ def run_operator(sc: dict, wall_limit: float = 60.0) -> dict:
             passes.append([t0, loop.time()])
         orchestration.adjust_tasks = obs_adjust  # type: ignore[assignment]
         state_on = {"on": True}
+        orig_orchestrator = orchestration.orchestrator
+        captured: dict = {}
+
+        async def obs_orchestrator(**kw: Any) -> None:        # running.spawn_tasks looks the attribute up at call time
+            captured["operator_paused"] = kw["operator_paused"]
+            await orig_orchestrator(**kw)
+        orchestration.orchestrator = obs_orchestrator  # type: ignore[assignment]
+        pause_state: dict = {"toggle": None, "on": False}
+        pauses: list = []
+
+        async def set_pause(on: bool) -> None:
+            ts = captured.get("operator_paused")
+            if ts is None:
+                raise RuntimeError("the operator's pause ToggleSet was not captured (the orchestrator has not started)")
+            if pause_state["toggle"] is None:
+                pause_state["toggle"] = await ts.make_toggle(False, name="harness pause button")
+            await pause_state["toggle"].turn_to(on)
+            pause_state["on"] = on
+            if on:
+                pauses.append([loop.time(), None])
+            elif pauses and pauses[-1][1] is None:
+                pauses[-1][1] = loop.time()
         observation.revise_namespaces = obs_revise  # type: ignore[assignment]
 
         def open_watches() -> list:
@@ -660,15 +775,28 @@ def run_operator(sc: dict, wall_limit: float = 60.0) -> dict:
                 if cluster.get(fakeapi.NAMESPACES, None, o[1]) is None:
                     cluster.create_raw(fakeapi.NAMESPACES, None, o[1], {})
             elif name == "del_ns":
-                cluster.delete(fakeapi.NAMESPACES, None, o[1])
+                cur_ns = cluster.get(fakeapi.NAMESPACES, None, o[1])
+                if cur_ns is not None and cur_ns["metadata"].get("deletionTimestamp"):
+                    do(["fin_ns", o[1]])        # a Terminating namespace goes the way the namespace controller ends it (conditions all False first)
+                else:
+                    cluster.delete(fakeapi.NAMESPACES, None, o[1])
+            elif name == "term_ns":
+                terminate_ns(o[1], True)
+            elif name == "fin_ns":
+                if cluster.get(fakeapi.NAMESPACES, None, o[1]) is not None:
+                    # nothing may remain in a namespace that goes: its objects are removed first (as the namespace controller does)
+                    for key in [k for k in list(cluster.objects) if k[1] == o[1] and k[0][2] not in META]:
+                        cluster._remove(key)
+                    terminate_ns(o[1], False)
+                    cluster._remove((fakeapi.NAMESPACES.key, None, o[1]))
             elif name == "add_res":
-                if RES_BY_NAME[o[1]].key not in cluster.resources:
-                    cluster.add_resource(RES_BY_NAME[o[1]], announce=True)
+                if RES[o[1]].key not in cluster.resources:
+                    cluster.add_resource(RES[o[1]], announce=True)
             elif name == "del_res":
-                if RES_BY_NAME[o[1]].key in cluster.resources:
-                    cluster.remove_resource(RES_BY_NAME[o[1]])
+                if RES[o[1]].key in cluster.resources:
+                    cluster.remove_resource(RES[o[1]])
             elif name in ("create", "edit", "delete"):
-                res = RES_BY_NAME[o[1]]
+                res = RES[o[1]]
                 if res.key not in cluster.resources:
                     return
                 ns = o[2] if res.namespaced else None
@@ -681,13 +809,13 @@ def run_operator(sc: dict, wall_limit: float = 60.0) -> dict:
                 else:
                     cluster.delete(res, ns, o[3])
             elif name == "break":
-                cluster.break_watches(RES_BY_NAME[o[1]], o[2])
+                cluster.break_watches(RES[o[1]], o[2])
             elif name == "compact":
-                cluster.compact(RES_BY_NAME[o[1]])
+                cluster.compact(RES[o[1]])
             elif name == "http410":
                 cluster.http_410 = bool(o[1])
             elif name in ("add_version", "set_preferred", "set_categories", "set_shortnames", "del_version"):
-                base = RES_BY_NAME[o[1]]
+                base = RES[o[1]]
                 if base.key not in cluster.resources and not any(k[0] == base.group and k[2] == base.plural for k in cluster.resources):
                     return
                 if name == "add_version":
@@ -735,6 +863,11 @@ def run_operator(sc: dict, wall_limit: float = 60.0) -> dict:
                     "namespaces": sorted(k[2] for k in cluster.objects if k[0] == fakeapi.NAMESPACES.key),
                     "objects": sorted([k[0][2], k[1], k[2], b["metadata"]["resourceVersion"]] for k, b in cluster.objects.items()
                                       if k[0][2] not in META),
+                    # the fake keeps the objects per API VERSION of a resource (a real cluster shows one object under every version)
+                    "objects_gvp": sorted([k[0][0], k[0][1], k[0][2], k[1], k[2]] for k in cluster.objects if k[0][2] not in META),
+                    "paused": bool(pause_state["on"]),
+                    "terminating": sorted(k[2] for k, b in cluster.objects.items() if k[0] == fakeapi.NAMESPACES.key
+                                          and b["metadata"].get("deletionTimestamp")),
                     "alive": op.alive, "ncalls": len(calls)})
             else:
                 raise ValueError(f"unknown op {o!r}")
@@ -745,7 +878,10 @@ def run_operator(sc: dict, wall_limit: float = 60.0) -> dict:
                 d = o[0] - loop.time()
                 if d > 0:
                     await asyncio.sleep(d)
-                do(o[1:])
+                if o[1] in ("pause", "resume"):
+                    await set_pause(o[1] == "pause")
+                else:
+                    do(o[1:])
             d = sc["end"] - loop.time()
             if d > 0:
                 await asyncio.sleep(d)
@@ -764,6 +900,17 @@ def run_operator(sc: dict, wall_limit: float = 60.0) -> dict:
                                         "response": r["response"]} for r in cluster.requests
                                        if r["method"] == "GET" and r["query"].get("watch") == "true"],
                     "ns_feed": ns_feed, "passes": passes, "orch_trace": trace_at_end, "deaths": deaths,
+                    "pauses": pauses, "initial_cluster_namespaces": initial_cluster_namespaces,
+                    # every stored version of every CRD object: each one is an event that makes the observer re-scan that API group
+                    "crd_events": sorted([v["t"], k[2], v["event"]] for k, vs in cluster.history.items()
+                                         if k[0][2] == "customresourcedefinitions" for v in vs),
+                    "obj_requests": [{"t": r["t"], "kind": "watch" if r["query"].get("watch") == "true" else "list",
+                                      "plural": r["path"].rstrip("/").split("/")[-1],
+                                      "ns": (r["path"].rstrip("/").split("/")[-2] if r["path"].rstrip("/").split("/")[-3:-2] == ["namespaces"] else None),
+                                      "since": r["query"].get("resourceVersion"), "response": r["response"]}
+                                     for r in cluster.requests
+                                     if r["method"] == "GET" and r["path"].rstrip("/").split("/")[-1] in RES_BY_NAME
+                                     and r["path"].rstrip("/").split("/")[-1] not in META],
                     "not_found": sorted({r["path"].rstrip("/").split("/")[-1] for r in cluster.requests
                                          if r["method"] == "GET" and r["response"] == 404}),
                     "not_found_at": {r["path"].rstrip("/").split("/")[-1]: r["t"] for r in cluster.requests
@@ -775,6 +922,7 @@ def run_operator(sc: dict, wall_limit: float = 60.0) -> dict:
             observation.process_discovered_namespace_event = orig_process  # type: ignore[assignment]
             orchestration.adjust_tasks = orig_adjust  # type: ignore[assignment]
             orchestration.terminate_redundancies = orig_terminate  # type: ignore[assignment]
+            orchestration.orchestrator = orig_orchestrator  # type: ignore[assignment]
             _refs.Insights = RealInsights  # type: ignore[misc]
 
     try:
